@@ -53,7 +53,12 @@ fn expected_tree(case: &Value) -> Vec<Tree> {
                 let (k, cs) = stack.pop().unwrap();
                 stack.last_mut().unwrap().1.push(Tree::Node(k, cs));
             }
-            _ => stack.last_mut().unwrap().1.push(Tree::Tok(t["t"].as_str().unwrap().to_string())),
+            _ => {
+                let x = t["t"].as_str().unwrap();
+                let c = x.chars().next().unwrap_or(' ');
+                let class = if c == '"' { "\"s\"" } else if c.is_ascii_digit() { if x.contains('.') { "1.5" } else { "1" } } else { x };
+                stack.last_mut().unwrap().1.push(Tree::Tok(class.to_string()))
+            }
         }
     }
     stack.pop().unwrap().1
@@ -64,7 +69,13 @@ fn real_children(node: &SyntaxNode, out: &mut Vec<Tree>) {
         match el {
             NodeOrToken::Token(t) => {
                 if !t.kind().is_trivia() {
-                    out.push(Tree::Tok(t.text().to_string()));
+                    // literals compare by class (the grammar's terminals "1", "1.5", "\"s\"" stand for the classes)
+                    out.push(Tree::Tok(match t.kind() {
+                        SyntaxKind::INTEGER => "1".to_string(),
+                        SyntaxKind::FLOAT => "1.5".to_string(),
+                        SyntaxKind::STRING => "\"s\"".to_string(),
+                        _ => t.text().to_string(),
+                    }));
                 }
             }
             NodeOrToken::Node(n) => {
@@ -89,8 +100,24 @@ fn real_children(node: &SyntaxNode, out: &mut Vec<Tree>) {
     }
 }
 
+/// literal classes of the specification (GleamSyn.LiteralSpellings), set once from --spellings
+static SPELLINGS: std::sync::OnceLock<Value> = std::sync::OnceLock::new();
+
 fn render(case: &Value, mode: u8, rng: &mut Rng) -> String {
-    let toks: Vec<&str> = case["out"].as_array().unwrap().iter().filter(|t| t["r"] == "tok").map(|t| t["t"].as_str().unwrap()).collect();
+    let mut toks: Vec<&str> = case["out"].as_array().unwrap().iter().filter(|t| t["r"] == "tok").map(|t| t["t"].as_str().unwrap()).collect();
+    // the seeded layout also draws a member of each literal class (never for a tuple index `x.1`)
+    if mode == 2 {
+        if let Some(sp) = SPELLINGS.get() {
+            for i in 0..toks.len() {
+                let class = match toks[i] { "1" => "int", "1.5" => "float", "\"s\"" => "str", _ => continue };
+                if i > 0 && toks[i - 1] == "." {
+                    continue;
+                }
+                let alts = sp[class].as_array().unwrap();
+                toks[i] = alts[rng.below(alts.len())].as_str().unwrap();
+            }
+        }
+    }
     let mut s = String::new();
     for (i, t) in toks.iter().enumerate() {
         if i > 0 {
@@ -280,6 +307,10 @@ fn main() {
     let args: Vec<String> = std::env::args().collect();
     let arg = |name: &str| args.iter().position(|a| a == name).and_then(|i| args.get(i + 1)).cloned();
     let threads: usize = arg("--threads").and_then(|s| s.parse().ok()).unwrap_or(16);
+    if let Some(f) = arg("--spellings") {
+        let v: Value = serde_json::from_str(&std::fs::read_to_string(f).expect("spellings file")).expect("spellings json");
+        SPELLINGS.set(v).unwrap();
+    }
     let seed: u64 = std::env::var("VERIF_SEED").ok().and_then(|s| s.parse().ok()).unwrap_or(1);
     // cases are streamed: a shared line reader hands (index, line) to the workers (millions of cases in the thorough tier)
     let source = Arc::new(Mutex::new((0usize, std::io::BufReader::with_capacity(1 << 20, std::io::stdin()).lines())));
